@@ -44,7 +44,8 @@ fn prior(kind: usize) -> (SparqlDatabase, L) {
     (db, l)
 }
 fn check(name: &str, load: fn(&mut SparqlDatabase, &str)) {
-    for kind in 0..3 { for n in [0usize, 1, 2, 3, 999, 1000, 1001, 2001] {
+    let sizes: Vec<usize> = if std::env::var("VERIF_TIER").map_or(false, |v| v == "thorough") { vec![0, 1, 2, 3, 7, 500, 999, 1000, 1001, 1999, 2000, 2001, 3001, 5000] } else { vec![0, 1, 2, 3, 999, 1000, 1001, 2001] };
+    for kind in 0..3 { for n in sizes.iter().copied() {
         let (mut db, before) = prior(kind);
         assert_eq!(lexical(&db), before);
         let (text, triples) = doc(n);
